@@ -21,6 +21,7 @@ type defaultVarMocker struct {
 	targetValue reflect.Value
 	mockValue   interface{}
 	originValue interface{}
+	captured    bool // captured 是否已经保存过原始值
 	canceled    bool // canceled 是否被取消
 }
 
@@ -80,7 +81,11 @@ func (m *defaultVarMocker) Set(value interface{}) {
 }
 
 func (m *defaultVarMocker) doSet(value interface{}) {
-	m.originValue = m.targetValue.Elem().Interface()
+	if !m.captured {
+		// 只在第一次 mock 时保存原始值, 多次 Set/Apply 之后 Cancel 仍然恢复到 mock 之前的值
+		m.originValue = m.targetValue.Elem().Interface()
+		m.captured = true
+	}
 	d := reflect.ValueOf(value)
 	m.targetValue.Elem().Set(d)
 	m.mockValue = value
